@@ -167,6 +167,19 @@ NEEDS = {
  "R7-C01-b": ("basic_schedules.py SingleDisk: Reverse(n1, n0, self._r < self._max_n)", "copy mode, second pass: the first Copy loads while step 0's dependencies are still held [C12]"),
  "R7-C06-a": ("disk_revolve.py: replayed segment built with revolve(jmin - 1, cm + 1)", "wd+rd >= ~2 uf and disk checkpoints >= ram+2 apart: DiskRevolve(8,1) holds 2 RAM checkpoints [C03]"),
  "R7-C06-b": ("hrevolve_sequences/hrevolve.py hrevolve_aux: left part only inserted `if jmin > 1`", "disk I/O cheaper than a forward step: HRevolve(3,1,1,wd=0.25,rd=0.25) EndReverse at r=2 [C02]"),
+ # ---- round 8 (ids R8-<slot>-a/b): brief = must need a RARE PARAMETER COINCIDENCE (exact equalities, particular n, inexact floats)
+ "R8-C14-a": ("mixed.py: scan over the first block split in two loops, candidate i = 2s+1 never evaluated (also in optimal_steps_mixed)", "n = C(s+3,2) - 2: Mixed(8,2), (13,3), (19,4), (26,5): one forward step above the optimum [C06]"),
+ "R8-C14-b": ("mixed.py memoised planner: balanced split evaluated first as incumbent, smaller i of equal cost replaces it", "several optimal first intervals, the largest equal to (n-s)//2: (17,5) tabulated 6 vs memoised 5; none for n <= 16 [C16]"),
+ "R8-C15-a": ("hrevolve_sequences/hrevolve.py get_hopt_table: min() rewritten as if a < b / elif b < a, the equal case forgotten (entry stays inf)", "an exact disk/memory tie: wd + rd == uf (or zero costs), ram >= 2, disk >= 2: HRevolve(7,2,2,wd=.5,rd=.5) 24.5 vs 24 [C07]"),
+ "R8-C15-b": ("hrevolve_sequences/hrevolve.py hrevolve(): levels sorted by cost 'defensively'", "wd == rd == 0 and disk < ram: RAM and DISK swap: HRevolve(10,3,1,wd=0,rd=0) holds 3 DISK checkpoints [C03]"),
+ "R8-C16-a": ("disk_revolve.py: 'disk not worth it' fast exit reads the tables at l - 1", "n - 1 the shortest chain for which disk pays: one n per (RAM, cost vector): (6,1), (11,2), (14,3) at default costs [C07]"),
+ "R8-C16-b": ("disk_revolve.py builder: memory-vs-disk test on round()ed values", "non-integer costs, disk winning by exactly 0.5 against an even makespan: uf=1, wd=0.5, rd=2, RAM=2, n=8, 11, 14 [C07]"),
+ "R8-C17-a": ("schedule.py __repr__: sys.maxsize offset computed with % instead of -", "an argument >= 2*sys.maxsize: the second Forward of SingleMemory/None before finalize [C18]"),
+ "R8-C17-b": ("schedule.py Forward/Reverse __contains__: isinstance(step, int) guard", "membership asked with a numpy integer (or Fraction / integral float) equal to a covered step [C18]"),
+ "R8-C18-a": ("multistage.py: new guard 'no checkpoint is loaded more than t times' with t computed from n - 1", "max_n == C(s+t, s) + 1, s >= 2, t >= 2: 20 of 1890 (n, s) pairs for n <= 60: RuntimeError mid-stream [C17]"),
+ "R8-C18-b": ("hrevolve.py PeriodicDiskRevolve.uses_storage_type: period re-derived in product form", "(wd+rd)/uf exactly on a binomial threshold AND inexact in binary, n in the window between the two periods: Periodic(4,1,uf=0.7,wd=0.7,rd=1.4) [C11]"),
+ "R8-C13-a": ("twolevel_binomial.py: block start from n * (1.0 / period)", "(n-1) a multiple of the period and the float product one ulp short: period 49 with n = 50 or 99, (98,99), (103,104), (107,108): RuntimeError after EndForward [C13]"),
+ "R8-C13-b": ("multistage.py n_advance 'revolve': b_s_tm2 where b_sm2_tm1 belongs in the third test", "'revolve' trajectory at exact binomial fits with 3 units: (35,3), (56,3), (84,3): 141 forward steps vs 140 [C05]"),
 
 }
 
